@@ -196,8 +196,8 @@ def gen_cmb(ctx):
     def add(T, ops, n):
         line = "%s cmb %d %s" % (AREA, T, ",".join(ops))
         # quick tier: the model runs the cases just above the boundary 1024 (a few seconds each); the others are judged by
-        # the predicate alone; thorough tier: everything is tied
-        (tied if (n == 1025 or ctx.tier == "thorough") else alone).append(line)
+        # the predicate alone; thorough tier: everything up to 2049 records is tied (5000: a minute and a half per sweep in the model)
+        (tied if (n == 1025 or (ctx.tier == "thorough" and n <= 2100)) else alone).append(line)
     T = 10
     for n in (1023, 1024, 1025, 1026, 2048, 2049, 5000):
         # all seen at one instant; swept just before, at and after the expiry instant; then seen again (new queues)
